@@ -105,6 +105,20 @@ spec fn sw_arm_jumps(t: Seq<Ev>, i: int, ast: &Ast, arm: AstIndex, patched: Map<
         && patched.contains_key(t[i + 5].pos()) && patched[t[i + 5].pos()] == end
 }
 
+// ---- if: the trace of one `else if` block, at trace index i: [condition -> any register, JumpIfFalse on it, (hole),
+// block -> the if's register, Jump, (hole)]
+#[verifier::opaque] spec fn elif_shape(t: Seq<Ev>, i: int, block: (AstIndex, AstIndex), want: ResultRegister) -> bool {
+    t[i].is_node(block.0, ResultRegister::Any) && t[i + 1].is_op(Op::JumpIfFalse, seq![t[i].reg()]) && t[i + 2] is Hole
+        && t[i + 3].is_node(block.1, want) && t[i + 4].is_op(Op::Jump, Seq::empty()) && t[i + 5] is Hole
+}
+proof fn lemma_elif_stable(t0: Seq<Ev>, t1: Seq<Ev>, i: int, block: (AstIndex, AstIndex), want: ResultRegister)
+    requires prefix(t0, t1), 0 <= i, i + 6 <= t0.len(), elif_shape(t0, i, block, want),
+    ensures elif_shape(t1, i, block, want),
+{ reveal(elif_shape); }
+// a failing condition lands right after its block; after the block the whole `if` is left (lands at `end`)
+#[verifier::opaque] spec fn elif_jumps(t: Seq<Ev>, i: int, patched: Map<int, int>, end: int) -> bool {
+    patched.contains_key(t[i + 2].pos()) && patched[t[i + 2].pos()] == t[i + 5].pos() + 2 && patched.contains_key(t[i + 5].pos()) && patched[t[i + 5].pos()] == end
+}
 spec fn sw_len(ast: &Ast, arm: AstIndex) -> int { if sw_cond(ast, arm) is Some { 6 } else { 1 } }
 proof fn lemma_sw_step(ast: &Ast, arms: Seq<AstIndex>, k: int)
     requires 0 <= k,
@@ -517,6 +531,131 @@ proof { lemma_sw_step(ctx.ast, arms@, 0); }"""),
             let t = final(self).g@.trace; let m = old(self).g@.trace.len() + sw_start(ctx.ast, arms@, arms@.len() as int);
             let null_needed = out.register is Some && !(arms@.len() > 0 && sw_cond(ctx.ast, arms@.last()) is None);
             t.len() == m + (if null_needed { 1int } else { 0 }) && (null_needed ==> t[m].is_op(Op::SetNull, seq![out.register->0])) }),          // @null_when_no_arm_runs
+        r matches Ok(out) ==> final(self).g@.regs == old(self).g@.regs + (if out.is_temporary { 1int } else { 0 }),                       // @temporaries_released
+        r is Ok ==> Self::frame_post(old(self), final(self), old(self).len()),                                                           // @earlier_code_and_enclosing_loops_untouched
+        r matches Ok(out) ==> (ctx.result_register matches ResultRegister::Fixed(x) ==> out.register == Some(x) && !out.is_temporary),
+        r matches Ok(out) ==> (ctx.result_register is None ==> out.register is None),                                                     // @result_request_is_honoured
+"""),
+        # ---- C01: if / else if / else
+        Fn(F, "impl Compiler :: fn compile_if", props=P01, attrs=("verifier::rlimit(60)", "verifier::spinoff_prover"),
+           subst=[MAP_OR,
+                  # rule R15: `iter().map(|(a, b)| -> Result<T> { ..; Ok(x) }).collect::<Result<Vec<_>>>()?` written as the loop it
+                  # stands for (the closure runs once per element, in order; the first Err ends the iteration and is returned
+                  # by the `?` after collect, exactly as a `?` inside the loop body returns it)
+                  (r"(?s)let (\w+) = (\w+)\s*\.iter\(\)\s*\.map\(\|\((\w+), (\w+)\)\| -> Result<usize> \{(.*?)\n\s*Ok\((\w+)\)\s*\}\)\s*\.collect::<Result<Vec<_>>>\(\)\?;",
+                   r"let mut \1: Vec<usize> = Vec::new();\nfor pair__ in it: \2.iter() {\nlet (\3, \4) = pair__;\5\n\1.push(\6);\n}", 1, "re"),
+                  ("for else_if_jump_ip in else_if_jump_ips.iter() {", "for else_if_jump_ip in it2: else_if_jump_ips.iter() {", 1)],
+           before=[("let mut else_if_jump_ips: Vec<usize> = Vec::new();", """let ghost n = old(self).g@.trace.len() as int; let ghost want = expression_context.result_register;
+let ghost t_head = self.g@.trace; let ghost b = t_head.len() as int; let ghost hc = t_head[n + 2].pos();
+let ghost len_head = self.len();
+let ghost mut cond_holes: Set<int> = Set::empty().insert(hc); let ghost mut cond_target: Map<int, int> = Map::empty().insert(hc, len_head);
+proof {
+    assert(b == n + (if if_jump_ip is Some { 6int } else { 4 }));
+    assert(if_jump_ip matches Some(x) ==> x as int == t_head[n + 5].pos() && len_head == x + 2);
+    assert(t_head[n].is_node(ast_if.condition, ResultRegister::Any) && t_head[n + 1].is_op(Op::JumpIfFalse, seq![t_head[n].reg()]) && t_head[n + 2] is Hole && t_head[n + 3].is_node(ast_if.then_node, want));
+    assert(if_jump_ip is Some ==> t_head[n + 4].is_op(Op::Jump, Seq::empty()) && t_head[n + 5] is Hole);
+}"""),
+                   ("let condition = self.compile_node(*else_if_condition, ctx.with_any_register())?;", "let ghost s0 = *self; let ghost t0 = self.g@.trace; let ghost k = it.index@ as int;"),
+                   ("else_if_jump_ips.push(else_if_jump_ip);", """proof {
+    let t1 = self.g@.trace; let i = b + 6 * k;
+    assert(prefix(t0, t1));
+    assert(elif_shape(t1, i, else_if_blocks@[k], want)) by { reveal(elif_shape); }
+    assert forall|j: int| 0 <= j < k implies elif_shape(t1, b + 6 * j, #[trigger] else_if_blocks@[j], want) by { lemma_elif_stable(t0, t1, b + 6 * j, else_if_blocks@[j], want); }
+    assert forall|h: int| cond_holes.contains(h) implies self.g@.patched.contains_key(h) && self.g@.patched[h] == cond_target[h] by { assert(s0.g@.patched.contains_key(h) && h + 2 <= s0.len()); }
+    let h = t1[i + 2].pos(); let e = t1[i + 5].pos();
+    assert(t1[i + 2] is Hole && t1[i + 5] is Hole) by { reveal(elif_shape); }
+    assert(!cond_holes.contains(h) && h >= s0.len());
+    assert forall|j: int| 0 <= j < k implies t1[b + 6 * j + 2] == t0[b + 6 * j + 2] && t1[b + 6 * j + 5] == t0[b + 6 * j + 5] && #[trigger] else_if_blocks@[j] == else_if_blocks@[j] by { }
+    cond_holes = cond_holes.insert(h); cond_target = cond_target.insert(h, e + 2);
+}"""),
+                   ("if let Some(else_node) = else_node {", "let ghost t_blocks = self.g@.trace; let ghost s_blocks = *self;"),
+                   ("if let Some(if_jump_ip) = if_jump_ip {", "let ghost t_end = self.g@.trace; let ghost len_end = self.len(); proof { assert(prefix(t_blocks, t_end)); assert(prefix(t_head, t_end)); assert(prefix(old(self).g@.trace, t_end)); assert forall|h: int| cond_holes.contains(h) implies self.g@.patched.contains_key(h) && self.g@.patched[h] == cond_target[h] by { assert(s_blocks.g@.patched.contains_key(h) && h + 2 <= s_blocks.len()); } }"),
+                   ("Ok(result)", """proof {
+    let t = self.g@.trace;
+    assert(Self::frame_post(old(self), self, old(self).len()));
+    assert(cond_holes.contains(hc));
+    assert(else_if_blocks@ == ast_if.else_if_blocks@ && *else_node == ast_if.else_node);
+    assert(b == n + (if ast_if.else_if_blocks@.len() > 0 || ast_if.else_node is Some || result.register is Some { 6int } else { 4 }));
+    assert forall|j: int| 0 <= j < ast_if.else_if_blocks@.len() implies elif_shape(t, b + 6 * j, #[trigger] ast_if.else_if_blocks@[j], want) by {
+        lemma_elif_stable(t_blocks, t, b + 6 * j, else_if_blocks@[j], want);
+    }
+    assert forall|j: int| 0 <= j < ast_if.else_if_blocks@.len() implies #[trigger] elif_jumps(t, b + 6 * j, self.g@.patched, self.len()) by {
+        assert(elif_shape(t_blocks, b + 6 * j, else_if_blocks@[j], want));
+        assert(t[b + 6 * j + 2] == t_blocks[b + 6 * j + 2] && t[b + 6 * j + 5] == t_blocks[b + 6 * j + 5]);
+        assert(cond_holes.contains(t[b + 6 * j + 2].pos()));
+        assert(else_if_jump_ips@[j] as int == t[b + 6 * j + 5].pos());
+        reveal(elif_jumps);
+    }
+    assert(want == fixed_or_none_spec(result.register));
+    let bb = n + (if ast_if.else_if_blocks@.len() > 0 || ast_if.else_node is Some || result.register is Some { 6int } else { 4 });
+    assert(bb == b);
+    assert(forall|j: int| 0 <= j < ast_if.else_if_blocks@.len() ==> elif_shape(t, bb + 6 * j, #[trigger] ast_if.else_if_blocks@[j], fixed_or_none_spec(result.register)));
+    assert(forall|j: int| 0 <= j < ast_if.else_if_blocks@.len() ==> #[trigger] elif_jumps(t, bb + 6 * j, self.g@.patched, self.len()));
+}""", -1)],
+           loops={1: r"""
+            invariant
+                self.g@.spans == old(self).g@.spans, self.g@.spans.len() > 0, self.settings == old(self).settings,
+                self.g@.regs == old(self).g@.regs + (if result.is_temporary { 1int } else { 0 }),
+                expression_context.ast == ctx.ast, expression_context.result_register == want, want == fixed_or_none_spec(result.register),
+                n == old(self).g@.trace.len(), prefix(t_head, self.g@.trace), b == t_head.len(), n + 4 <= b, self.len() >= old(self).len(),
+                self.g@.trace.len() == b + 6 * it.index@,
+                Self::frame_post(old(self), self, old(self).len()),
+                else_if_jump_ips@.len() == it.index@,
+                // each block compiled so far has the shape of a block; a failing condition lands right after it; the jump that
+                // leaves the `if` after the block is remembered
+                forall|j: int| 0 <= j < it.index@ ==> elif_shape(self.g@.trace, b + 6 * j, #[trigger] else_if_blocks@[j], want)
+                    && cond_holes.contains(self.g@.trace[b + 6 * j + 2].pos())
+                    && cond_target[self.g@.trace[b + 6 * j + 2].pos()] == self.g@.trace[b + 6 * j + 5].pos() + 2
+                    && else_if_jump_ips@[j] as int == self.g@.trace[b + 6 * j + 5].pos(),
+                cond_holes.contains(hc), cond_target[hc] == len_head, it.index@ == 0 ==> self.len() == len_head,
+                forall|h: int| #![trigger cond_holes.contains(h)] cond_holes.contains(h) ==> old(self).len() <= h && h + 2 <= self.len() && self.g@.patched.contains_key(h) && self.g@.patched[h] == cond_target[h],
+                forall|q: int| 0 <= q < else_if_jump_ips@.len() ==> old(self).len() <= (#[trigger] else_if_jump_ips@[q]) && else_if_jump_ips@[q] + 2 <= self.len() && !cond_holes.contains(else_if_jump_ips@[q] as int),
+                if_jump_ip matches Some(x) ==> old(self).len() <= x && x + 2 <= self.len() && !cond_holes.contains(x as int),
+""", 2: r"""
+            invariant
+                self.g@.trace == t_end, self.settings == old(self).settings, self.g@.regs == old(self).g@.regs + (if result.is_temporary { 1int } else { 0 }), self.len() == len_end,
+                Self::frame_post(old(self), self, old(self).len()),
+                forall|h: int| #![trigger cond_holes.contains(h)] cond_holes.contains(h) ==> self.g@.patched.contains_key(h) && self.g@.patched[h] == cond_target[h],
+                forall|q: int| 0 <= q < else_if_jump_ips@.len() ==> old(self).len() <= (#[trigger] else_if_jump_ips@[q]) && else_if_jump_ips@[q] + 2 <= self.len() && !cond_holes.contains(else_if_jump_ips@[q] as int),
+                forall|q: int| 0 <= q < it2.index@ ==> self.g@.patched.contains_key(#[trigger] else_if_jump_ips@[q] as int) && self.g@.patched[else_if_jump_ips@[q] as int] == self.len(),
+                if_jump_ip matches Some(x) ==> self.g@.patched.contains_key(x as int) && self.g@.patched[x as int] == self.len(),
+"""},
+           spec=r"""
+    requires old(self).g@.spans.len() > 0,
+    ensures
+        r is Ok ==> prefix(old(self).g@.trace, final(self).g@.trace),
+        // C01: the condition is evaluated first, into a register of its own; when it is falsy the `then` block is
+        // skipped; the `then` block goes into the if's register
+        r matches Ok(out) ==> ({
+            let t = final(self).g@.trace; let n = old(self).g@.trace.len() as int;
+            t.len() >= n + 4 && t[n].is_node(ast_if.condition, ResultRegister::Any) && t[n + 1].is_op(Op::JumpIfFalse, seq![t[n].reg()]) && t[n + 2] is Hole
+                && t[n + 3].is_node(ast_if.then_node, fixed_or_none_spec(out.register)) }),                                                // @condition_guards_the_then_block
+        // after the `then` block everything else is skipped whenever there IS something else (an else-if, an else, or
+        // the null the if yields when no block runs); a falsy condition lands right behind that jump
+        r matches Ok(out) ==> ({
+            let t = final(self).g@.trace; let n = old(self).g@.trace.len() as int;
+            let more = ast_if.else_if_blocks@.len() > 0 || ast_if.else_node is Some || out.register is Some;
+            &&& (more ==> t.len() >= n + 6 && t[n + 4].is_op(Op::Jump, Seq::empty()) && t[n + 5] is Hole
+                    && final(self).g@.patched.contains_key(t[n + 5].pos()) && final(self).g@.patched[t[n + 5].pos()] == final(self).len())
+            &&& final(self).g@.patched.contains_key(t[n + 2].pos())
+            &&& final(self).g@.patched[t[n + 2].pos()] == (if more { t[n + 5].pos() + 2 } else { final(self).len() })
+            &&& (!more ==> t.len() == n + 4) }),                                                                                           // @then_block_leaves_the_if_falsy_condition_goes_on
+        // the else-if blocks follow in order, each condition guarding ITS block
+        r matches Ok(out) ==> ({
+            let t = final(self).g@.trace; let n = old(self).g@.trace.len() as int;
+            let more = ast_if.else_if_blocks@.len() > 0 || ast_if.else_node is Some || out.register is Some;
+            let b = n + (if more { 6int } else { 4 });
+            &&& (forall|j: int| 0 <= j < ast_if.else_if_blocks@.len() ==> elif_shape(t, b + 6 * j, #[trigger] ast_if.else_if_blocks@[j], fixed_or_none_spec(out.register)))
+            &&& (forall|j: int| 0 <= j < ast_if.else_if_blocks@.len() ==> #[trigger] elif_jumps(t, b + 6 * j, final(self).g@.patched, final(self).len())) }),                                                // @else_if_blocks_in_order_each_condition_guards_its_block
+        // last the else block, or null for the if's value when there is none
+        r matches Ok(out) ==> ({
+            let t = final(self).g@.trace; let n = old(self).g@.trace.len() as int;
+            let more = ast_if.else_if_blocks@.len() > 0 || ast_if.else_node is Some || out.register is Some;
+            let m = n + (if more { 6int } else { 4 }) + 6 * ast_if.else_if_blocks@.len();
+            match ast_if.else_node {
+                Some(e) => t.len() == m + 1 && t[m].is_node(e, fixed_or_none_spec(out.register)),
+                None => match out.register { Some(x) => t.len() == m + 1 && t[m].is_op(Op::SetNull, seq![x]), None => t.len() == m },
+            } }),                                                                                                                         // @else_block_or_null_last
         r matches Ok(out) ==> final(self).g@.regs == old(self).g@.regs + (if out.is_temporary { 1int } else { 0 }),                       // @temporaries_released
         r is Ok ==> Self::frame_post(old(self), final(self), old(self).len()),                                                           // @earlier_code_and_enclosing_loops_untouched
         r matches Ok(out) ==> (ctx.result_register matches ResultRegister::Fixed(x) ==> out.register == Some(x) && !out.is_temporary),
